@@ -142,6 +142,17 @@ def scale_twins(ctx, bt, n):
         spec["comm"] = ctx.rng.choice([[0, 0, 0], [3, 0, 0.001], [2, 0, 0.0078125]])
         spec["mode"] = "scale"
         spec["k"] = ctx.rng.choice([2.0, 0.5, 4.0, 8.0, 3.0, 10.0])
+        if ctx.rng.random() < 0.5:
+            # a small fund against a large one: at a unit of capital every trade's costs are fractions of a cent, so any absolute
+            # (currency-unit) tolerance in the sizing shows as a dependence of the index on the amount of capital
+            small = float(ctx.rng.choice([1.0, 2.0, 10.0, 100.0]))
+            f = small / spec["capital"]
+            spec["capital"] = small
+            for d in spec["tree"]["stack"]:
+                if d[0] == "CapitalFlow":
+                    d[1] = d[1] * f
+            spec["k"] = ctx.rng.choice([1e3, 1e6, 1024.0, 65536.0])
+            ctx.count("scale-twins:small-fund-vs-large")
         ctx.evaluations += 1
         if run_scale_twin(ctx, bt, spec):
             done += 1
